@@ -298,7 +298,10 @@ def call_method(I, r, name, args, kwargs):
                 raise Unsupported("map.get key")
             I.add_key(k.t)
             if d is None:
-                raise Unsupported("map.get without default")
+                # dict.get(k): the stored value, or None when the key is absent (a branch: None is not a float)
+                if I.branch(p["dom"](k.t)):
+                    return p["get"](k.t)
+                return None
             return vite(p["dom"](k.t), p["get"](k.t), lift_fl(d))
     if isinstance(r, Obj) and r.kind == "seq":
         return seq_method(I, r, name, args, kwargs)
